@@ -18,6 +18,7 @@ func main() {
 	if r.Replayed() {
 		return
 	}
+	pgen.Corpus(r)
 	rng := r.Rand()
 	cfgs := pgen.Cfgs()
 	g := &pgen.G{R: rng, Cfg: pgen.DefaultCfg}
